@@ -586,7 +586,7 @@ prop(
         Leg("std", "release", "mem", "C16enum", 0, -1, max_ops=192, sharded=True, extra=["--groestl-level", "1"]),
         Leg("std", "release", "mem", "C16", 20000, 300000, max_ops=40, sharded=True, extra=["--groestl-level", "1"]),
     ],
-    [REAL, STUB + "; second pass: Miri interprets the real crates (portable SIMD backend, Groestl on AES-NI shims) with every slice an exact-size allocation"],
+    [REAL, STUB + "; second pass: Miri interprets the real crates (portable SIMD backend and, in a second run, the x86 backend with the AVX2 machine; Groestl on AES-NI shims) with every slice an exact-size allocation"],
     miri_mem=True,
     memcheck={"quick": 640, "thorough": 8000},
     huge=[
@@ -687,7 +687,7 @@ prop(
     "fresh Miri interpreter per (workload, scheduler seed, preemption rate); Miri's seeded scheduler decides every preemption, its data-race/deadlock detector is on, every result is compared with the "
     "sequential one-at-a-time expectation computed natively, and any other failure is re-run with the threads one after the other to decide whether it needs overlapping threads. distinct_nontrivial = distinct abstract states of layer (a) (kind of instance, history length class, op kind) + underlying scenarios",
     [
-        "layer (b) runs lazy_static, std::sync::Once, the Groestl AES-NI path (Miri's intrinsic shims) and the algorithm bodies on the PORTABLE ppv-lite86 backend (cfg(miri)); an intra-call race living only in ppv-lite86/src/x86_64 or in std's CPUID cache is not reachable by any controlled scheduler available here",
+        "layer (b) runs lazy_static, std::sync::Once, the Groestl AES-NI path (Miri's intrinsic shims) and the algorithm bodies on the portable ppv-lite86 backend (what cfg(miri) selects) and, for about half of the interpreter runs, on the x86 backend (AVX2 machine; an overlay build of ppv-lite86 with its cfg(miri) switch turned); std's CPUID cache is answered by the interpreter from the compile-time feature set and is not raced",
         "one Miri scheduler seed = one exactly repeatable interleaving; workloads are enumerated, schedules (seed x preemption rate) are sampled: a shared value written with atomics shows only in the schedules that mix two writers (measured on a seeded change: 9 % of the schedules of the matching hammer workload)",
         "layer (a) interleaves at call granularity (a single-threaded caller cannot be preempted inside a call)",
     ],
@@ -698,7 +698,7 @@ prop(
         Leg("std-native", "release", "interleave", "C18", 0, 150000, max_ops=60, sharded=True),
         Leg("std-features", "release", "interleave", "C18", 0, 150000, max_ops=60, sharded=True),
     ],
-    [REAL, STUB + "; Miri interprets the real crates (portable SIMD backend)"],
+    [REAL, STUB + "; Miri interprets the real crates (portable SIMD backend and x86 backend)"],
     miri=True,
 )
 
@@ -905,6 +905,31 @@ def miri_dirs():
     return bdir, mpath, tag
 
 
+X86_THREADS_FLAGS = "-C target-feature=+sse3,+ssse3,+sse4.1,+sse4.2,+avx,+avx2,+aes"
+
+
+def miri_x86_dirs():
+    """the thread / memory workload built against the overlay copy of ppv-lite86 (x86 backend under Miri, see x86miri_dirs)"""
+    with X86MIRI_LOCK:
+        if "dirs" not in X86MIRI_READY:
+            X86MIRI_READY["dirs"] = x86miri_dirs()
+        if "mt" not in X86MIRI_READY:
+            ov = os.path.join(X86MIRI_READY["dirs"][0], "ppv-lite86")
+            tag = "mirix86" + repo_tag()
+            bdir = os.path.join(VERIF, "build", tag)
+            os.makedirs(os.path.join(bdir, ".cargo"), exist_ok=True)
+            tmpl = open(os.path.join(VERIF, "mirithreads", "Cargo.toml.in")).read()
+            manifest = tmpl.replace("@REPO@/utils-simd/ppv-lite86", ov).replace("@REPO@", REPO).replace("@MT@", os.path.join(VERIF, "mirithreads"))
+            mpath = os.path.join(bdir, "Cargo.toml")
+            if not os.path.exists(mpath) or open(mpath).read() != manifest:
+                open(mpath, "w").write(manifest)
+            if not os.path.exists(os.path.join(bdir, "Cargo.lock")):
+                shutil.copy(os.path.join(VERIF, "sim", "Cargo.lock.seed"), os.path.join(bdir, "Cargo.lock"))
+            open(os.path.join(bdir, ".cargo", "config.toml"), "w").write("[net]\noffline = true\n")
+            X86MIRI_READY["mt"] = (bdir, mpath, tag)
+    return X86MIRI_READY["mt"]
+
+
 def miri_native():
     """native build of the thread workload: computes the sequential (one-at-a-time) expectations"""
     bdir, mpath, tag = miri_dirs()
@@ -919,12 +944,12 @@ def miri_native():
     return os.path.join(VERIF, "target", tag + "-native", "debug", "mirithreads")
 
 
-def miri_run(base, nw, table, seed_lo, seed_hi, rate, idx=None, seq=False, rounds=1, timeout=None, warmup=None):
+def miri_run(base, nw, table, seed_lo, seed_hi, rate, idx=None, seq=False, rounds=1, timeout=None, warmup=None, x86=False):
     """run the thread workload under Miri for scheduler seeds [seed_lo, seed_hi); returns (rc, output).
     Each seed is a fresh interpreter (a cold process); the seed also selects which of the `nw` workloads runs."""
-    bdir, mpath, tag = miri_dirs()
+    bdir, mpath, tag = miri_x86_dirs() if x86 else miri_dirs()
     env = dict(os.environ)
-    env["RUSTFLAGS"] = MIRI_RUSTFLAGS
+    env["RUSTFLAGS"] = (BASE_RUSTFLAGS + " --cfg cryptocorrosion_verif_x86_miri " + X86_THREADS_FLAGS) if x86 else MIRI_RUSTFLAGS
     env["CARGO_NET_OFFLINE"] = "true"
     env["CARGO_TARGET_DIR"] = os.path.join(VERIF, "target", tag)
     if seed_hi - seed_lo == 1:
@@ -1156,10 +1181,10 @@ def run_be_layer(pid, spec_be, tier, sd, replay_dir, results, violations, known)
     return len(le)
 
 
-def miri_mem_run(base, parts, seed_lo, seed_hi, part=None):
-    bdir, mpath, tag = miri_dirs()
+def miri_mem_run(base, parts, seed_lo, seed_hi, part=None, x86=False):
+    bdir, mpath, tag = miri_x86_dirs() if x86 else miri_dirs()
     env = dict(os.environ)
-    env["RUSTFLAGS"] = MIRI_RUSTFLAGS
+    env["RUSTFLAGS"] = (BASE_RUSTFLAGS + " --cfg cryptocorrosion_verif_x86_miri " + X86_THREADS_FLAGS) if x86 else MIRI_RUSTFLAGS
     env["CARGO_NET_OFFLINE"] = "true"
     env["CARGO_TARGET_DIR"] = os.path.join(VERIF, "target", tag)
     flags = "-Zmiri-symbolic-alignment-check"
@@ -1175,6 +1200,13 @@ def miri_mem_run(base, parts, seed_lo, seed_hi, part=None):
 
 
 def run_miri_mem_layer(pid, tier, sd, replay_dir, results, violations, known):
+    """both variants of the exact-allocation pass: the portable backend (as cfg(miri) builds it) and the x86 backend (AVX2 machine)"""
+    n = run_miri_mem_variant(pid, tier, sd, replay_dir, results, violations, known, False)
+    n += run_miri_mem_variant(pid, tier, sd, replay_dir, results, violations, known, True)
+    return n
+
+
+def run_miri_mem_variant(pid, tier, sd, replay_dir, results, violations, known, x86):
     """S5 second pass: every slice argument is an exact-size allocation of its own; Miri's byte-granular bounds and
     alignment checking sees what guard pages cannot (an out-of-slice read, or write of the same value, inside a mapped page)."""
     import re
@@ -1182,16 +1214,16 @@ def run_miri_mem_layer(pid, tier, sd, replay_dir, results, violations, known):
     parts, nseeds = (8, 16) if tier == "quick" else (4, 32)
     lo = (sd * 104729) % 100000
     t0 = time.time()
-    rc, out = miri_mem_run(base, parts, lo, lo + nseeds)
+    rc, out = miri_mem_run(base, parts, lo, lo + nseeds, x86=x86)
     covered = sorted(set(int(m.group(1)) for m in re.finditer(r"MEM part=(\d+) of", out)))
-    results.append(dict(base_seed=base, parts=parts, parts_covered=covered, miri_seeds=[lo, lo + nseeds], operations_in_list=77 + 144 + 2, ok=(rc == 0), wall_s=round(time.time() - t0, 1),
+    results.append(dict(backend="x86 (overlay build, AVX2 machine, AES-NI)" if x86 else "portable (cfg(miri)), Groestl on AES-NI shims", base_seed=base, parts=parts, parts_covered=covered, miri_seeds=[lo, lo + nseeds], operations_in_list=77 + 144 + 2, ok=(rc == 0), wall_s=round(time.time() - t0, 1),
                         flags="-Zmiri-symbolic-alignment-check", what="apply_keystream x7 ciphers (11 prefix/length pairs), update + finalize_into x16 hash types (9 pairs), Threefish x3, block-API refill/refill4; every key, nonce, message, block and output is an exact-size allocation of its own"))
-    log("[%s] miri memory pass: seeds %d..%d, parts covered %s of %d: %s" % (pid, lo, lo + nseeds, covered, parts, "ok" if rc == 0 else "FAILED"))
+    log("[%s] miri memory pass (%s backend): seeds %d..%d, parts covered %s of %d: %s" % (pid, "x86" if x86 else "portable", lo, lo + nseeds, covered, parts, "ok" if rc == 0 else "FAILED"))
     if rc == 0:
         return nseeds
     failing = None
     for s_ in range(lo, lo + nseeds):
-        rc1, out1 = miri_mem_run(base, parts, s_, s_ + 1)
+        rc1, out1 = miri_mem_run(base, parts, s_, s_ + 1, x86=x86)
         if rc1 != 0:
             failing = (s_, out1)
             break
@@ -1207,10 +1239,10 @@ def run_miri_mem_layer(pid, tier, sd, replay_dir, results, violations, known):
     else:
         what = "undefined behaviour"
     tail = "\n".join(l for l in out1.splitlines() if l.strip())[-1800:]
-    sig = "exact-size allocations under Miri:%s" % what
-    f = dict(kind="miri_mem", base_seed=base, parts=parts, miri_seed=s_, ops=[], minimised_from=1,
+    sig = "exact-size allocations under Miri:%s%s" % (what, ":x86 backend" if x86 else "")
+    f = dict(kind="miri_mem", base_seed=base, parts=parts, miri_seed=s_, x86=x86, ops=[], minimised_from=1,
              violation=dict(properties=[pid], invariant="M3", signature=sig, at_op=0, detail="Miri seed %d: %s\n%s" % (s_, what, tail)))
-    path = os.path.join(replay_dir, "%s-mirimem-%d-%d.json" % (pid, base, s_))
+    path = os.path.join(replay_dir, "%s-mirimem%s-%d-%d.json" % (pid, "x86" if x86 else "", base, s_))
     json.dump(f, open(path, "w"))
     f["replay"] = path
     kf = open_finding_for(pid, sig)
@@ -1260,6 +1292,9 @@ def miri_jobs(tier, sd):
     if tier != "quick":
         for k in WRAP16_KINDS:
             jobs.append((NW_BASE + k, lo + 72000 + k, "0.2", 1, 65526))
+    # which build runs a job: the portable backend (what cfg(miri) selects) or the x86 backend (overlay, AVX2 machine): the second
+    # copy of the first-call workloads, every other hammer schedule and the wrap workloads run the x86 backend
+    jobs = [j + ((MIRI_NOPS <= j[0] < 2 * MIRI_NOPS) or (j[0] >= 2 * MIRI_NOPS and j[1] % 2 == 1),) for j in jobs]
     jobs.sort(key=lambda j: -(miri_cost_hint(j[0]) * (1 + j[3]) / 2 + (WRAP16_COST.get(j[0] - NW_BASE, 600) if j[4] else 0)))  # longest first: a short tail for the pool
     return jobs
 
@@ -1300,14 +1335,17 @@ def run_miri_layer(pid, tier, sd, replay_dir, results, violations, known, others
     # the first job also builds the interpreter's copy of the program
     # a cheap run first: it builds the interpreter's copy of the program (its result is not used)
     miri_run(base, NW, table, 1, 2, "0.1", 2 * MIRI_NOPS + 19)
+    miri_run(base, NW, table, 1, 2, "0.1", 2 * MIRI_NOPS + 19, x86=True)
     with ThreadPoolExecutor(max_workers=NCPU) as ex:
-        outs = list(ex.map(lambda j: miri_run(base, NW, table, j[1], j[1] + 1, j[2], j[0], rounds=j[3], warmup=j[4]), jobs))
+        outs = list(ex.map(lambda j: miri_run(base, NW, table, j[1], j[1] + 1, j[2], j[0], rounds=j[3], warmup=j[4], x86=j[5]), jobs))
     picked = {}
     per_rate = {}
     failed = []
     orders = set()
     rounds_total = 0
-    for (w, s_, rate, nr, wu), (rc, out) in zip(jobs, outs):
+    nx86 = 0
+    for (w, s_, rate, nr, wu, x86), (rc, out) in zip(jobs, outs):
+        nx86 += 1 if x86 else 0
         rounds_total += nr
         m = re.search(r"WORKLOAD (\d+) threads=(\d+) first=(\w+)", out)
         if m:
@@ -1318,14 +1356,14 @@ def run_miri_layer(pid, tier, sd, replay_dir, results, violations, known, others
             for o in mo.group(1).split(" ;; "):
                 orders.add((w, o))
         if rc != 0:
-            failed.append((w, s_, rate, nr, wu, out))
+            failed.append((w, s_, rate, nr, wu, x86, out))
     total = len(jobs)
-    results.append(dict(base_seed=base, workloads=NW, workloads_run=len(set(j[0] for j in jobs)), interpreter_runs=total, thread_rounds=rounds_total, runs_per_preemption_rate=per_rate,
+    results.append(dict(base_seed=base, workloads=NW, workloads_run=len(set(j[0] for j in jobs)), interpreter_runs=total, runs_on_the_x86_backend=nx86, thread_rounds=rounds_total, runs_per_preemption_rate=per_rate,
                         distinct_interleavings=dict(measure="distinct (workload, global completion order of the threads' calls) pairs", count=len(orders)), first_call_kinds_raced=picked,
                         failed_runs=len(failed), wall_s=round(time.time() - t0, 1)))
     log("[%s] miri: %d interpreter runs (%d of the %d workloads, rates %s): %d failed; first-call kinds raced: %s" % (pid, total, len(set(j[0] for j in jobs)), NW, per_rate, len(failed), picked))
     seen_sig = set()
-    for (w, s_, rate, nr, wu, out1) in failed:
+    for (w, s_, rate, nr, wu, x86, out1) in failed:
         if "WORKLOAD" not in out1 and "error: could not compile" in out1:
             log(out1[-3000:])
             raise HarnessError("the thread workload does not build for the interpreter")
@@ -1333,7 +1371,7 @@ def run_miri_layer(pid, tier, sd, replay_dir, results, violations, known, others
         needs_overlap = None
         if what not in ("data race", "deadlock"):
             # the same threads one after the other in the same interpreter configuration: does the failure need them to overlap?
-            rc2, out2 = miri_run(base, NW, table, s_, s_ + 1, rate, w, seq=True, rounds=nr, warmup=wu)
+            rc2, out2 = miri_run(base, NW, table, s_, s_ + 1, rate, w, seq=True, rounds=nr, warmup=wu, x86=x86)
             needs_overlap = rc2 == 0
             if needs_overlap and what.startswith("undefined behaviour"):
                 what = "undefined behaviour only when the threads overlap"
@@ -1344,11 +1382,11 @@ def run_miri_layer(pid, tier, sd, replay_dir, results, violations, known, others
         seen_sig.add(sig)
         tail = "\n".join(l for l in out1.splitlines() if l.strip())
         head = "\n".join(tail.splitlines()[:6])[:700]
-        f = dict(kind="miri", base_seed=base, workloads=NW, workload_index=w, explicit_index=True, miri_seed=s_, preemption_rate=rate, rounds=nr, warmup=wu, table=table,
+        f = dict(kind="miri", base_seed=base, workloads=NW, workload_index=w, explicit_index=True, miri_seed=s_, preemption_rate=rate, rounds=nr, warmup=wu, x86=x86, table=table,
                  ops=[plans[w]] if 0 <= w < len(plans) else [], minimised_from=1,
                  violation=dict(properties=props, invariant="T1", signature=sig, at_op=0,
-                                detail="Miri scheduler seed %d, preemption rate %s, workload %d: %s%s\n%s\n...\n%s" % (
-                                    s_, rate, w, what, "" if needs_overlap is None else " (the same threads one after the other: %s)" % ("pass" if needs_overlap else "fail too"), head, tail[-900:])))
+                                detail="Miri scheduler seed %d, preemption rate %s, workload %d (%s backend): %s%s\n%s\n...\n%s" % (
+                                    s_, rate, w, "x86" if x86 else "portable", what, "" if needs_overlap is None else " (the same threads one after the other: %s)" % ("pass" if needs_overlap else "fail too"), head, tail[-900:])))
         path = os.path.join(replay_dir, "%s-miri-%d-%d-%d.json" % (pid, base, w, s_))
         json.dump(f, open(path, "w"))
         f["replay"] = path
@@ -1781,7 +1819,7 @@ def replay(pid, path):
         print("OK replay: the foreign host and its native twin agree on this tree")
         return 0
     if j.get("kind") == "miri_mem":
-        rc, out = miri_mem_run(j["base_seed"], j["parts"], j["miri_seed"], j["miri_seed"] + 1)
+        rc, out = miri_mem_run(j["base_seed"], j["parts"], j["miri_seed"], j["miri_seed"] + 1, x86=j.get("x86", False))
         if rc != 0:
             kf = open_finding_for(pid, j["violation"]["signature"])
             if kf:
@@ -1794,7 +1832,7 @@ def replay(pid, path):
         return 0
     if j.get("kind") == "miri":
         rc, out = miri_run(j["base_seed"], j["workloads"], j["table"], j["miri_seed"], j["miri_seed"] + 1, j["preemption_rate"],
-                           j["workload_index"] if j.get("explicit_index") else None, rounds=j.get("rounds", 1), warmup=j.get("warmup"))
+                           j["workload_index"] if j.get("explicit_index") else None, rounds=j.get("rounds", 1), warmup=j.get("warmup"), x86=j.get("x86", False))
         if rc != 0:
             sig = j["violation"]["signature"]
             if pid not in j["violation"]["properties"]:
